@@ -27,6 +27,7 @@ const (
 	hFrame // keep(key) ? prev : fresh
 	hCopy  // dst range copied from src
 	hZero  // one object zero-initialised
+	hSel   // keep(key) ? a : b
 )
 
 type HeapV struct {
@@ -49,6 +50,8 @@ type HeapV struct {
 	obj  Term
 	zero Term
 	memo map[string]Term
+	smtFn string
+	memoFrame map[string]bool
 }
 
 type heapCtx struct {
@@ -95,6 +98,14 @@ func (tr *Tr) heapCopy(prev *HeapV, dstArr, dstLo, n Term, src *HeapV, srcArr, s
 		src: src, srcArr: srcArr, srcLo: srcLo, memo: map[string]Term{}}
 }
 
+func (tr *Tr) heapSel(keep func(key []Term) Term, a, b *HeapV) *HeapV {
+	if a == b {
+		return a
+	}
+	tr.hcount++
+	return &HeapV{kind: hSel, comp: a.comp, id: tr.hcount, keep: keep, a: a, b: b, memo: map[string]Term{}}
+}
+
 func (tr *Tr) heapZero(prev *HeapV, obj Term, zero Term) *HeapV {
 	tr.hcount++
 	return &HeapV{kind: hZero, comp: prev.comp, id: tr.hcount, prev: prev, obj: obj, zero: zero, memo: map[string]Term{}}
@@ -106,11 +117,35 @@ func (tr *Tr) read(h *HeapV, key ...Term) Term {
 	if t, ok := h.memo[mk]; ok {
 		return t
 	}
+	t, viaFrame := tr.readRec(h, mk, key)
+	if viaFrame && h.comp.gotype != nil && isInterface(h.comp.gotype) && !tr.quietReads && !tr.openTerm(mk) {
+		// one assumption for the value read (not one per callee frame it may come from)
+		tr.assume(app("valOK", t), "values written by callees satisfy the data invariant")
+	}
+	return t
+}
+
+// readRec returns the term and whether it may come from a callee's frame.
+func (tr *Tr) readRec(h *HeapV, mk string, key []Term) (Term, bool) {
+	if t, ok := h.memo[mk]; ok {
+		return t, h.memoFrame[mk]
+	}
+	if h.kind != hBase && len(key) > 0 && tr.openTerm(mk) {
+		// a key under a binder: go through the version's own SMT function,
+		// so nested reads stay linear in size
+		return app(tr.heapFn(h), key...), false
+	}
 	var t Term
+	viaFrame := false
+	sub := func(h2 *HeapV, key2 ...Term) Term {
+		t2, f := tr.readRec(h2, strings.Join(key2, "\x00"), key2)
+		viaFrame = viaFrame || f
+		return t2
+	}
 	switch h.kind {
 	case hBase:
 		t = app(h.fname, key...)
-		if h.initial && h.comp.gotype != nil && !tr.openTerm(mk) {
+		if h.initial && h.comp.gotype != nil && !tr.quietReads && !tr.openTerm(mk) {
 			var f Term
 			if isInterface(h.comp.gotype) {
 				f = And(app("idsOK", t, tr.alloc0), app("valOK", t))
@@ -119,25 +154,28 @@ func (tr *Tr) read(h *HeapV, key ...Term) Term {
 			}
 			tr.assume(f, "values in the entry heap exist at entry")
 		}
+		if !h.initial {
+			viaFrame = true
+		}
 	case hStore:
 		conds := make([]Term, len(key))
 		for i := range key {
 			conds[i] = Eq(key[i], h.key[i])
 		}
-		t = Ite(And(conds...), h.val, tr.read(h.prev, key...))
+		t = Ite(And(conds...), h.val, sub(h.prev, key...))
 	case hIte:
-		t = Ite(h.cond, tr.read(h.a, key...), tr.read(h.b, key...))
+		t = Ite(h.cond, sub(h.a, key...), sub(h.b, key...))
 	case hFrame:
 		fresh := app(h.fname, key...)
-		if h.comp.gotype != nil && isInterface(h.comp.gotype) && !tr.openTerm(mk) {
-			tr.assume(app("valOK", fresh), "values written by callees satisfy the data invariant")
-		}
-		t = Ite(h.keep(key), tr.read(h.prev, key...), fresh)
+		viaFrame = true
+		t = Ite(h.keep(key), sub(h.prev, key...), fresh)
 	case hCopy:
 		in := And(Eq(key[0], h.dstArr), app("<=", h.dstLo, key[1]), app("<", key[1], app("+", h.dstLo, h.n)))
-		t = Ite(in, tr.read(h.src, h.srcArr, app("+", app("-", key[1], h.dstLo), h.srcLo)), tr.read(h.prev, key...))
+		t = Ite(in, sub(h.src, h.srcArr, app("+", app("-", key[1], h.dstLo), h.srcLo)), sub(h.prev, key...))
 	case hZero:
-		t = Ite(Eq(key[0], h.obj), h.zero, tr.read(h.prev, key...))
+		t = Ite(Eq(key[0], h.obj), h.zero, sub(h.prev, key...))
+	case hSel:
+		t = Ite(h.keep(key), sub(h.a, key...), sub(h.b, key...))
 	}
 	// memoise as a named definition unless the key mentions a bound variable
 	if !tr.openTerm(mk) && len(t) > 40 {
@@ -147,7 +185,58 @@ func (tr *Tr) read(h *HeapV, key ...Term) Term {
 		t = name
 	}
 	h.memo[mk] = t
-	return t
+	if h.memoFrame == nil {
+		h.memoFrame = map[string]bool{}
+	}
+	h.memoFrame[mk] = viaFrame
+	return t, viaFrame
+}
+
+// heapFn names an SMT function equal to reading version h at its
+// parameters; the definition chains to the functions of earlier versions.
+func (tr *Tr) heapFn(h *HeapV) string {
+	if h.kind == hBase {
+		return h.fname
+	}
+	if h.smtFn != "" {
+		return h.smtFn
+	}
+	ps := make([]Term, len(h.comp.keySorts))
+	decl := make([]string, len(ps))
+	for i := range ps {
+		ps[i] = fmt.Sprintf("hk%d!", i)
+		decl[i] = fmt.Sprintf("(%s %s)", ps[i], h.comp.keySorts[i])
+	}
+	var body Term
+	switch h.kind {
+	case hStore:
+		conds := make([]Term, len(ps))
+		for i := range ps {
+			conds[i] = Eq(ps[i], h.key[i])
+		}
+		body = Ite(And(conds...), h.val, app(tr.heapFn(h.prev), ps...))
+	case hIte:
+		body = Ite(h.cond, app(tr.heapFn(h.a), ps...), app(tr.heapFn(h.b), ps...))
+	case hFrame:
+		tr.boundVars = append(tr.boundVars, ps...)
+		k := h.keep(ps)
+		tr.boundVars = tr.boundVars[:len(tr.boundVars)-len(ps)]
+		body = Ite(k, app(tr.heapFn(h.prev), ps...), app(h.fname, ps...))
+	case hCopy:
+		in := And(Eq(ps[0], h.dstArr), app("<=", h.dstLo, ps[1]), app("<", ps[1], app("+", h.dstLo, h.n)))
+		body = Ite(in, app(tr.heapFn(h.src), h.srcArr, app("+", app("-", ps[1], h.dstLo), h.srcLo)), app(tr.heapFn(h.prev), ps...))
+	case hZero:
+		body = Ite(Eq(ps[0], h.obj), h.zero, app(tr.heapFn(h.prev), ps...))
+	case hSel:
+		tr.boundVars = append(tr.boundVars, ps...)
+		k := h.keep(ps)
+		tr.boundVars = tr.boundVars[:len(tr.boundVars)-len(ps)]
+		body = Ite(k, app(tr.heapFn(h.a), ps...), app(tr.heapFn(h.b), ps...))
+	}
+	name := fmt.Sprintf("hf%d", h.id)
+	tr.declare(fmt.Sprintf("(define-fun %s (%s) %s %s)", name, strings.Join(decl, " "), h.comp.valSort, body))
+	h.smtFn = name
+	return name
 }
 
 // openTerm reports whether s mentions a currently bound quantifier variable.
